@@ -36,6 +36,22 @@ Proof.
 Qed.
 Print Assumptions C13_compact_preserves.
 
+(* The outcome streams of C13_compact_preserves include reads that arrive damaged (OErr
+   EGarble: the get reports success, the bytes fail the segment's checks, the object at rest
+   is intact).  Concretely: the damaged input is skipped and stays listed, the other two are
+   compacted, recovery returns the same three deltas. *)
+Example C13_garbled_read_keeps_input :
+  let '(w, r) := compact repaired kl_cc 0 100 (World gb_store gb_io [] false) in
+  r = COk [1; 2] (Some 3) /\
+  map fst (rev (w_log w)) = [CGet NMan; CGet (NSeg 0); CGet (NSeg 1); CGet (NSeg 2); CPut (NSeg 3);
+                             CPut NTmp; CRename NTmp NMan; CDelete (NSeg 1); CDelete (NSeg 2)] /\
+  match recover gb_store 1 with
+  | Some rec => map sig_of (r_deltas rec) = [(1, 5); (2, 6); (3, 7)] | None => False end /\
+  match recover (w_store w) 1 with
+  | Some rec => map sig_of (r_deltas rec) = [(1, 5); (2, 6); (3, 7)] | None => False end.
+Proof. exact garbled_read_example. Qed.
+Print Assumptions C13_garbled_read_keeps_input.
+
 (* The algebraic core: replaying what the merging compaction wrote in place of what it read
    gives the same node state, wherever recovery places the new segment among the others
    ([us], [us'] = any orderings / multiplicities of old and new contents; [B] = the updates
